@@ -84,6 +84,7 @@ func TestWorker(t *testing.T) {
 		i := spec.Start + k*stride
 		p := ps[i%len(ps)]
 		seed := mix(spec.SeedBase, i)
+		CurrentIndex = i
 		rr := RunOne(t, p, RunOpts{Seed: seed, KeepLog: spec.KeepLog})
 		if rr.Violation != nil && spec.Minimise {
 			rr = Minimise(t, p, rr, spec.MinBudgetSec)
